@@ -16,8 +16,24 @@ def stepStr (s : Step) : String :=
 
 def posJson (p : List Nat) : Json := Json.arr (p.map fun n => Json.num (JsonNumber.fromNat n)).toArray
 
+def pnameStr : XsVerif.NsMapper.PName → String
+  | .loc l => l
+  | .pre p l => p ++ ":" ++ l
+  | .braced u l => "{" ++ u ++ "}" ++ l
+
+/-- `{"render": [[prefix, uri], …], "q": [ns, local]}` → the rendered name -/
+def handleRender (j : Json) : Except String Json := do
+  let ns ← (← getArr j "render").toList.mapM fun p => do
+    let a ← p.getArr?
+    if h : a.size = 2 then pure (← a[0].getStr?, ← a[1].getStr?) else throw "pair"
+  let q ← getArr j "q"
+  if h : q.size = 2 then
+    return Json.mkObj [("name", pnameStr (renderName ns ⟨← q[0].getStr?, ← q[1].getStr?⟩))]
+  else throw "q"
+
 /-- request: a tree and a list of positions; answer per position: the path text and what it selects -/
 def handle (j : Json) : Except String Json := do
+  if (j.getObjVal? "render").toOption.isSome then return ← handleRender j
   let t ← parseT (← j.getObjVal? "tree")
   let ps ← (← getArr j "pos").toList.mapM fun p => do
     let a ← p.getArr?
